@@ -50,3 +50,8 @@ Theorem C02_rename_roundtrip : forall (start : nat) (sample xdims : list nat), i
   let m := Pipe.dim_mapping T7pipe.renamer_rule start sample xdims in Pipe.unrename m (Pipe.rename m xdims) = xdims.
 Proof. exact (Pipe_proofs.rename_roundtrip T7pipe.renamer_rule). Qed.
 Print Assumptions C02_rename_roundtrip.
+
+(* the Concatenator cuts the feature axis back into blocks in the insertion order of the fitted coordinates *)
+Theorem C02_concatenator_block_order : T7pipe.concatenator_splits_in_insertion_order = true.
+Proof. exact (proj2 Pipe_tie.cross_wiring_ok). Qed.
+Print Assumptions C02_concatenator_block_order.
